@@ -441,12 +441,13 @@ class ModelInputArrayBijector:
           attr.evolve(spec, bounds=(0.5, 0.5), scale=None),
       )
 
-    if spec.scale == pyvizier.ScaleType.LOG:
-      if low < 0 or high < 0:
+    if spec.scale in (pyvizier.ScaleType.LOG, pyvizier.ScaleType.REVERSE_LOG):
+      if low <= 0 or high <= 0:
         raise ValueError(
             'Log scale requires both parameter boundaries to be positive,'
             f' though low bound is {low} and high bound is {high}.'
         )
+    if spec.scale == pyvizier.ScaleType.LOG:
       low, high = np.log(low), np.log(high)
       denom = (high - low) or 1.0
       if denom < 1e-6:
